@@ -86,3 +86,12 @@ type DateTime interface {
 	// GoTime returns the underlying time.Time object.
 	GoTime() time.Time
 }
+
+// unquote strips the surrounding double quotes from data, the JSON encoding
+// of a string. It returns false if data is not a quoted string.
+func unquote(data []byte) ([]byte, bool) {
+	if len(data) < 2 || data[0] != '"' || data[len(data)-1] != '"' {
+		return nil, false
+	}
+	return data[1 : len(data)-1], true
+}
